@@ -387,6 +387,7 @@ struct World
     bool reload_table_library();
     void audit();  // audit.cpp (actor A)
     std::set<int64_t> foreign_tracks;  // rows written by actor F with shapes the API cannot express
+    std::set<std::string> seen_paths;  // every relative path a live track was observed to have (lookup candidates)
     std::set<int64_t> unanalysed;      // 1.x tracks whose PerformanceData row the second party deleted (until the next full write)
     void check_model(const FullObs& o);
     void check_name_lookups(const FullObs& o);
